@@ -30,6 +30,9 @@ type Program struct {
 	Blocks int
 	Instrs int
 	GOARCH string
+
+	refStatic map[*ssa.Function]int
+	refOther  map[*ssa.Function]bool
 }
 
 // Load type-checks and builds SSA for /repo (packages . and ./mocks).  overlay maps absolute file
